@@ -1,3 +1,4 @@
+import VelaVerif.Gen.Caches
 /-!
 # Model of `ethosu/vela/weight_compressor.py` (layout part) and of the address derivation in
 # `high_level_command_to_npu_op.py` (property C08)
@@ -305,7 +306,14 @@ structure WccKey where
   dilation : Nat × Nat
   weightValueId : Nat
   ifmBits : Nat
+  flip : Bool              -- `false` for every request while the key has no such field
 deriving Repr, DecidableEq
+
+/-- does `WeightCompressionConfig` of the tree under test have the field that separates a transpose
+    convolution (kernel encoded reversed in height and width) from a convolution?  Read from the generated
+    field list (`Gen/Caches.lean`, regenerated from the source on every run): the proposed repair
+    `/verif_patches/C08-21` adds `flipped`. -/
+def keyHasFlip : Bool := VelaVerif.Gen.Caches.wccFields.contains "flipped"
 
 structure SccKey where
   scaleValueId : Nat
@@ -313,7 +321,8 @@ structure SccKey where
   ofmScale : Nat
 deriving Repr, DecidableEq
 
-def wccKey (r : Req) : WccKey := ⟨r.blockType, r.blockDepthClamped, r.depthHash, r.dilation, r.weightValueId, r.ifmBits⟩
+def wccKey (r : Req) : WccKey :=
+  ⟨r.blockType, r.blockDepthClamped, r.depthHash, r.dilation, r.weightValueId, r.ifmBits, keyHasFlip && r.opFlip⟩
 def sccKey (r : Req) : SccKey := ⟨r.scaleValueId, r.ifmScale, r.ofmScale⟩
 
 /-- names of the non-key request fields in which two requests differ -/
